@@ -226,11 +226,11 @@ class ACLearn(Case):
     assumptions = COMMON_ASSUME + ("learn_counter >= 0",)
     outside = ("that the optimisers minimise the losses (autograd)",)
 
-    def __init__(self, algo, B=2, freq=2):
-        self.algo, self.B, self.freq = algo, B, freq
+    def __init__(self, algo, B=2, freq=2, int_done=False):
+        self.algo, self.B, self.freq, self.int_done = algo, B, freq, int_done
         self.cls = {"DDPG": DDPG, "TD3": TD3}[algo]
         self.functions = (self.cls.learn, self.cls.multi_dim_clamp)
-        self.name = f"{algo.lower()}-learn-B{B}-freq{freq}"
+        self.name = f"{algo.lower()}-learn-B{B}-freq{freq}" + ("-integer-done-flags" if int_done else "")
         self.site = f"{algo}.learn"
         self.bounds = {"batch": B, "action_dims": 2, "policy_freq": freq,
                        "symbolic": "rewards, dones, actions, all network outputs, policy noise, gamma, learn_counter"}
@@ -253,6 +253,9 @@ class ACLearn(Case):
         require(agent, "actor", "actor_target", "criterion", "actor_optimizer", "gamma", "learn_counter", "policy_freq", "soft_update",
                 "min_action", "max_action", *crit_names, *targ_names, *copt_names)
         S, AC, R, NS, D = batch(v, B, 1, AD=2)
+        if self.int_done:
+            # done flags as an integer tensor (an offline dataset, a custom buffer): the target must not depend on their dtype
+            D = (mk(np.array(D._e, dtype=object, copy=True), torch.int64) if v.mode != "real" else D.to(torch.int64))
         ac0 = [[val(AC, b, k) for k in range(2)] for b in range(B)]
         gamma = v.real("gamma")
         counter = v.int("learn_counter")
@@ -280,7 +283,8 @@ class ACLearn(Case):
         patches += [(agent, n, c) for n, c in zip(crit_names, crits)] + [(agent, n, c) for n, c in zip(targ_names, targs)]
         patches += [(agent, n, c) for n, c in zip(copt_names, copts)]
         if v.mode != "real":
-            patches += [(au, "torch", ShimTorch()), (T.RNG, "provider", provider)]
+            import importlib
+            patches += [(au, "torch", ShimTorch()), (T.RNG, "provider", provider), (importlib.import_module(self.cls.__module__), "torch", ShimTorch())]
         else:
             patches.append((torch.Tensor, "normal_", fake_normal_))
         noise_clip = 0.5
@@ -628,7 +632,7 @@ class SoftUpdateReal(Case):
 
 def cases(tier):
     cs = [QLearn("DQN", False), QLearn("DQN", True), QLearn("CQN", False), QLearn("CQN", True),
-          ACLearn("DDPG"), ACLearn("TD3"), ACLearn("TD3", B=1, freq=3), MALearn("MADDPG"), MALearn("MATD3")]
+          ACLearn("DDPG"), ACLearn("TD3"), ACLearn("TD3", B=1, freq=3), ACLearn("DDPG", B=1, int_done=True), ACLearn("TD3", B=1, int_done=True), MALearn("MADDPG"), MALearn("MATD3")]
     cs += [SoftUpdateReal(a) for a in ("DQN", "CQN", "RainbowDQN", "DDPG", "TD3", "MADDPG", "MATD3")]
     cs += [SoftUpdateReal("DQN", "mutation"), SoftUpdateReal("DQN", "checkpoint"), SoftUpdateReal("DDPG", "mutation"), SoftUpdateReal("CQN", "checkpoint")]
     cs += [SoftUpdateReal("DQN", "clone"), SoftUpdateReal("TD3", "clone"), SoftUpdateReal("DQN", "second-step"), SoftUpdateReal("CQN", "second-step"),
